@@ -12,6 +12,7 @@ import (
 	"crypto/ed25519"
 	"crypto/rand"
 	"crypto/x509"
+	"crypto/x509/pkix"
 	"encoding/asn1"
 	"fmt"
 	"time"
@@ -51,12 +52,12 @@ func main() {
 	run.CaseType = "Renewal.case"
 	run.ShardSize = 100
 	run.Rule = "renew: a correct CMS-signed renewal request (fresh keys, chain, CSR, 1-3 TRCs with root rotation) with 0-2 " +
-		"irregularities out of 25 (signed by another key / by the CA certificate / naming the CA certificate, two or no signer infos, payload or " +
+		"irregularities out of 29 (CSR subject with the ISD-AS attribute twice (same / own+other / other+own) or with unknown attributes, signed by another key / by the CA certificate / naming the CA certificate, two or no signer infos, payload or " +
 		"signature altered after signing, wrong content type or version, 1 or 3 certificates, CA first, CSR for another " +
 		"ISD-AS / without ISD-AS / with an invalid own signature / garbage, chain expired / foreign root / old root with " +
 		"or without grace period, latest TRC expired or base-only, predecessor expired or missing, truncated DER); issue: " +
 		"CAPolicy.CreateChain with explicit CurrentTime on and around the CA validity bounds, wrong signer key, ed25519 " +
-		"signer, mis-typed CA certificate, CSR without ISD-AS; non-trivial = renew cases that pass ExtractChain, issue cases"
+		"signer, mis-typed CA certificate, CSR without / with duplicated ISD-AS or unknown attributes (the issued subject is compared attribute by attribute); non-trivial = renew cases that pass ExtractChain, issue cases"
 	rng := vgen.NewRand(run.Seed)
 	nr := run.Count(260, 6000)
 	for i := 0; i < nr; i++ {
@@ -69,12 +70,55 @@ func main() {
 	run.Finish()
 }
 
-const nMut = 25
+const nMut = 29
 
 func corruptTail(b []byte) []byte {
 	out := append([]byte(nil), b...)
 	out[len(out)-2] ^= 0x01
 	return out
+}
+
+// subjectName builds a subject with the given ISD-AS attributes (in order) and
+// optionally an attribute type unknown to pkix.Name.
+func subjectName(ias []string, extra bool) pkix.Name {
+	n := pkix.Name{CommonName: "as", Organization: []string{"verif"}}
+	n.ExtraNames = []pkix.AttributeTypeAndValue{
+		{Type: asn1.ObjectIdentifier{2, 5, 4, 3}, Value: "as"},
+		{Type: asn1.ObjectIdentifier{2, 5, 4, 10}, Value: "verif"},
+	}
+	for i, ia := range ias {
+		if extra && i == 0 {
+			n.ExtraNames = append(n.ExtraNames,
+				pkix.AttributeTypeAndValue{Type: asn1.ObjectIdentifier{1, 3, 6, 1, 4, 1, 55324, 9, 9}, Value: "extra"})
+		}
+		n.ExtraNames = append(n.ExtraNames, pkix.AttributeTypeAndValue{Type: cppki.OIDNameIA, Value: ia})
+	}
+	if extra {
+		n.ExtraNames = append(n.ExtraNames,
+			pkix.AttributeTypeAndValue{Type: asn1.ObjectIdentifier{2, 5, 4, 5}, Value: "serial-7"})
+	}
+	return n
+}
+
+// sameAttrs compares two parsed names attribute by attribute (type, value, order).
+func sameAttrs(a, b pkix.Name) bool {
+	if len(a.Names) != len(b.Names) {
+		return false
+	}
+	for i := range a.Names {
+		if !a.Names[i].Type.Equal(b.Names[i].Type) || fmt.Sprint(a.Names[i].Value) != fmt.Sprint(b.Names[i].Value) {
+			return false
+		}
+	}
+	return true
+}
+
+func makeCSRName(n pkix.Name, key crypto.Signer) []byte {
+	raw, err := x509.CreateCertificateRequest(rand.Reader, &x509.CertificateRequest{Subject: n}, key)
+	if err != nil {
+		panic(err)
+	}
+	return raw
 }
 
 func makeCSR(ia string, key crypto.Signer, badSig bool) []byte {
@@ -205,6 +249,16 @@ func renewCase(run *vgen.Run, r *vgen.Rand, idx int) {
 		csrIA = ""
 	}
 	payload := makeCSR(csrIA, newKey.Priv, muts[11])
+	switch {
+	case muts[25]: // ISD-AS attribute twice, same value
+		payload = makeCSRName(subjectName([]string{iaAS, iaAS}, false), newKey.Priv)
+	case muts[26]: // own ISD-AS first, another one behind
+		payload = makeCSRName(subjectName([]string{iaAS, iaOther}, false), newKey.Priv)
+	case muts[27]: // another ISD-AS first
+		payload = makeCSRName(subjectName([]string{iaOther, iaAS}, false), newKey.Priv)
+	case muts[28]: // attributes unknown to pkix.Name
+		payload = makeCSRName(subjectName([]string{iaAS}, true), newKey.Priv)
+	}
 	if muts[12] {
 		payload = []byte("this is not a certificate request")
 	}
@@ -403,10 +457,10 @@ func abstractRequest(a *pkigen.Abs, g *pkigen.Gen, req []byte) (string, bool) {
 }
 
 func issueCase(run *vgen.Run, r *vgen.Rand) {
-	caMut := []int{0, 0, 0, 0, 0, 0, 0, 0, 0, 1, 2, 3}[r.Intn(12)] // 1 pathlen 1, 2 digital signature set, 3 root certificate as CA
-	signerKind := []int{0, 0, 0, 0, 0, 0, 0, 0, 1, 2}[r.Intn(10)] // 1 other ECDSA key, 2 ed25519 CA
-	csrIAKind := []int{0, 0, 0, 0, 0, 0, 1, 1, 2}[r.Intn(9)]     // 1 other ISD-AS, 2 none
-	csrKeyKind := []int{0, 0, 0, 0, 0, 0, 0, 0, 0, 1}[r.Intn(10)]    // 1 ed25519 key in the CSR
+	caMut := []int{0, 0, 0, 0, 0, 0, 0, 0, 0, 1, 2, 3}[r.Intn(12)]                 // 1 pathlen 1, 2 digital signature set, 3 root certificate as CA
+	signerKind := []int{0, 0, 0, 0, 0, 0, 0, 0, 1, 2}[r.Intn(10)]                  // 1 other ECDSA key, 2 ed25519 CA
+	csrIAKind := []int{0, 0, 0, 0, 0, 0, 1, 1, 2, 3, 4, 4, 5, 5, 6, 6}[r.Intn(16)] // 1 other ISD-AS, 2 none, 3 twice the same, 4 own+other, 5 other+own, 6 unknown attributes
+	csrKeyKind := []int{0, 0, 0, 0, 0, 0, 0, 0, 0, 1}[r.Intn(10)]                  // 1 ed25519 key in the CSR
 	durH := vgen.Pick(r, 1, 24, 72, 24*3)
 	timeSel := r.Intn(8)
 	delta := r.Intn(3) - 1
@@ -442,8 +496,20 @@ func issueCase(run *vgen.Run, r *vgen.Rand) {
 	if csrKeyKind == 1 {
 		csrKey = g.NewEdKey()
 	}
-	ia := []string{iaAS, iaOther, ""}[csrIAKind]
-	csr, err := x509.ParseCertificateRequest(makeCSR(ia, csrKey.Priv, false))
+	var rawCSR []byte
+	switch csrIAKind {
+	case 0, 1, 2:
+		rawCSR = makeCSR([]string{iaAS, iaOther, ""}[csrIAKind], csrKey.Priv, false)
+	case 3:
+		rawCSR = makeCSRName(subjectName([]string{iaAS, iaAS}, false), csrKey.Priv)
+	case 4:
+		rawCSR = makeCSRName(subjectName([]string{iaAS, iaOther}, false), csrKey.Priv)
+	case 5:
+		rawCSR = makeCSRName(subjectName([]string{iaOther, iaAS}, r.Bool()), csrKey.Priv)
+	case 6:
+		rawCSR = makeCSRName(subjectName([]string{iaAS}, true), csrKey.Priv)
+	}
+	csr, err := x509.ParseCertificateRequest(rawCSR)
 	if err != nil {
 		panic(err)
 	}
@@ -468,7 +534,7 @@ func issueCase(run *vgen.Run, r *vgen.Rand) {
 	implT, same := "None", true
 	if cerr == nil {
 		implT = "(Some " + a.Cert(chain[0]) + ")"
-		same = chain[0].Subject.String() == csr.Subject.String()
+		same = sameAttrs(chain[0].Subject, csr.Subject) && chain[0].Subject.String() == csr.Subject.String()
 	}
 	qT := fmt.Sprintf("(Renewal.mkcsr %d %d %d %s)", a.KeyH(csr.PublicKey), skid, a.H('n', csr.RawSubject), pkigen.IARes(csr.Subject))
 	term := vgen.App("Renewal.CIssue", caT, vgen.N(a.KeyH(signer.Pub)), vgen.B(ecdsaSigner),
